@@ -53,10 +53,22 @@ func main() {
 		out.Case(fmt.Sprintf("NSer %d %d %d %d %s %s", h.Type, h.Flags, h.Seq, h.Pid, sx.Hx(p), sx.Hx(b)),
 			map[string]interface{}{"serialize_payload_len": l, "type": h.Type, "flags": h.Flags}, "serialize", l > 0)
 	}
-	// (b) the audit message parser: every length 0..80, three fillings
+	// (b) the audit message parser: every length 0..80; random fillings, and every length field around the datagram's own
+	// length (the kernel writes a length that is short of the datagram for audit records; the parser must not trust it)
 	for l := 0; l <= 80; l++ {
-		for rep := 0; rep < 3; rep++ {
+		fillings := 3
+		if l >= 16 {
+			fillings = 3 + 14
+		}
+		for rep := 0; rep < fillings; rep++ {
 			buf := rnd(r, l)
+			if rep >= 3 {
+				lf := []int{l, l - 1, l - 2, l - 3, l - 4, l - 5, l - 16, 16, 17, 0, l + 1, l + 3, l + 4, 1 << 20}[rep-3]
+				if lf < 0 {
+					lf = 0
+				}
+				binary.LittleEndian.PutUint32(buf[0:], uint32(lf))
+			}
 			msgs, err := libaudit.VerifParseNetlinkAuditMessage(buf)
 			res := "None"
 			if err == nil && len(msgs) == 1 {
